@@ -27,9 +27,9 @@ REQUIRED = ['roundtrip_scalar', 'roundtrip_array', 'writer_roundtrip_values', 'r
             'scalar_vs_array', 'time_tracks', 'defragment_raw']
 EXHAUSTIVE = {'quick': False, 'thorough': False}
 SECONDS = {
-    'quick': ['2020-01-01T00:00:16', '1903-05-05T01:02:03'],
+    'quick': ['2020-01-01T00:00:16', '1903-05-05T01:02:03', '2250-06-01T12:00:00', '1500-03-01T00:00:00'],
     'thorough': ['2020-01-01T00:00:16', '1903-05-05T01:02:03', '1904-01-01T00:00:00', '1899-12-31T23:59:59', '2262-01-01T00:00:00',
-                 '1970-01-01T00:00:00'],
+                 '1970-01-01T00:00:00', '2250-06-01T12:00:00', '1500-03-01T00:00:00', '0001-01-01T00:00:00', '9999-12-31T23:59:59'],
 }
 BLOCK = 10000
 
@@ -97,7 +97,7 @@ def writer_rt(case, ctx):
     from nptdms import TdmsFile, TdmsWriter, ChannelObject, RootObject
     rng = random.Random('c12w/%d' % case['s'])
     n = 10000
-    secs = rng.choice([0, -2082844800, rng.randrange(-3 * 10 ** 9, 4 * 10 ** 9)])
+    secs = rng.choice([0, -2082844800, rng.randrange(-3 * 10 ** 9, 4 * 10 ** 9), rng.randrange(-62135596800, 253402300799)])
     us = np.array([rng.randrange(10 ** 6) for _ in range(n)], dtype='i8')
     us[:4] = [0, 1, 999999, 500000]
     vals = (np.datetime64(secs, 's').astype('M8[us]') + us.astype('m8[us]'))
